@@ -22,10 +22,14 @@ import jaxtyping._import_hook as _ih
 from . import hsim_spy, seams
 from .core import HarnessError
 
-MODULES = ["foo", "foo.sub", "foo.sub.leaf", "foo.util", "foobar", "foo_bar", "fo", "bar", "bar.baz", "foox", "foox.sub"]
-PKGS = {"foo", "foo.sub", "foo_bar", "bar", "foox"}
-TOPS = ["foo", "foobar", "foo_bar", "fo", "bar", "foox"]
-CHECKERS = {"a": "sim.hsim_spy.a", "b": "sim.hsim_spy.b", "none": None}
+MODULES = ["foo", "foo.sub", "foo.sub.leaf", "foo.util", "foobar", "foo_bar", "fo", "bar", "bar.baz", "foox", "foox.sub",
+           "chk", "chk.core"]
+PKGS = {"foo", "foo.sub", "foo_bar", "bar", "foox", "chk"}
+TOPS = ["foo", "foobar", "foo_bar", "fo", "bar", "foox", "chk"]
+# 'ca'/'cb': a PROJECT-LOCAL typechecker package living in the forest itself (first imported when an instrumented
+# module is decorated), which later runs may hook as well
+CHECKERS = {"a": "sim.hsim_spy.a", "b": "sim.hsim_spy.b", "none": None, "ca": "chk.a", "cb": "chk.b"}
+CANON = {"a": "a", "b": "b", "none": "none", "ca": "a", "cb": "b"}
 
 _ORIG_CFS = _be.cache_from_source
 _ORIG_WA = _be._write_atomic
@@ -53,12 +57,15 @@ def mod_file(root, name):
 def source(name, version, imports, lazy, pad):
     lines = [f'"""module {name}"""', f"VERSION = {version}", "import sim.hsim_spy as _spy",
              f"_spy.executed(__name__, {version})"]
+    if name == "chk":
+        lines += ["a = _spy.a", "b = _spy.b", "import chk.core"]
     for t in imports:
         lines.append(f"import {t}")
     lines += ["", "def f(x: int) -> int:", "    return x", "", "def which():", f"    return {version}", ""]
     if lazy:
         lines += ["def lazy():", f"    import {lazy}", f"    return {lazy}.which()", ""]
     lines += ["# pad " + "x" * pad] if pad else []
+    lines += [f"_spy.completed(__name__, {version})"]
     return "\n".join(lines) + "\n"
 
 
@@ -165,6 +172,9 @@ def _covering(hooks, name):
 def run_one(world, run, bytecode, stats):
     """Execute one run (= one simulated process lifetime).  Returns list of problem dicts."""
     soft_restart(world)
+    bytecode = run.get("bytecode", bytecode)  # a run may be started with -B / PYTHONDONTWRITEBYTECODE
+    if not bytecode:
+        stats.inc("runs_with_dont_write_bytecode")
     sys.dont_write_bytecode = not bytecode
     sys.path.insert(0, world.root)
     importlib.invalidate_caches()
@@ -265,11 +275,14 @@ def run_one(world, run, bytecode, stats):
                     exc = e
                 stats.inc("op:" + k)
                 fired_now = [f for f in st.fired]
-                if isinstance(exc, SyntaxError) and world.broken:
-                    stats.inc("import_of_broken_source")
+                if exc is not None and world.broken:
+                    # some module's source currently does not compile: imports that (transitively) reach it fail with
+                    # SyntaxError, and follow-on failures (ImportError: parent not in sys.modules) are legitimate
+                    stats.inc("import_failed_while_a_source_is_broken")
                 elif exc is not None and not st.fired and not getattr(world, "torn", False):
                     problems.append({"what": f"{k} of {target} failed in a fault-free run", "exc": repr(exc), "op_index": i})
-                executed = [(e[1], e[2]) for e in hsim_spy.LOG[log0:] if e[0] == "exec"]
+                done = {(e[1], e[2]) for e in hsim_spy.LOG[log0:] if e[0] == "done"}
+                executed = [(e[1], e[2]) for e in hsim_spy.LOG[log0:] if e[0] == "exec" and (e[1], e[2]) in done]
                 decos = {}
                 for e in hsim_spy.LOG[log0:]:
                     if e[0] == "deco":
@@ -294,7 +307,7 @@ def run_one(world, run, bytecode, stats):
                         problems.append(dict(rec, what="instrumented although no active hook covers it" if inst
                                              else "NOT instrumented although an active hook covers it"))
                     elif inst:
-                        allowed = {c for c in want}
+                        allowed = {CANON[c] for c in want}
                         seen = set(got) if got else {"none"}
                         if not seen <= allowed:
                             problems.append(dict(rec, what="instrumented with a checker that no covering hook asked for",
@@ -378,8 +391,11 @@ def run_history(scn, stats, real_process=False):
             for p in probs:
                 out.append(dict(p, run=ri))
             pyc_census(world, stats)
+            stats.mx("simulated_clock_span_s", abs(world.clock - 1_600_000_000))
+            stats.inc("simulated_clock_total_s", 0)
             if out:
                 break
+        stats.inc("simulated_time_covered_s", abs(world.clock - 1_600_000_000))
     finally:
         soft_restart(world)
         world.destroy()
